@@ -14,8 +14,34 @@ type Flow struct {
 	CFG *cfg.CFG
 }
 
+// CondOracle, when set, decides conditions whose value is fixed for every run
+// that enters the library through its documented entry points (a test of an
+// option field nobody but an option setter writes).  NewFlow removes the edge
+// such a condition never takes, so that code an unset option switches off does
+// not count as a path.
+var CondOracle func(f *Func, cond ast.Expr) (val, known bool)
+
 func NewFlow(f *Func) *Flow {
-	return &Flow{F: f, CFG: cfg.New(f.Body, MayReturn(f.Info()))}
+	g := cfg.New(f.Body, MayReturn(f.Info()))
+	if CondOracle != nil {
+		for _, b := range g.Blocks {
+			if len(b.Succs) != 2 || len(b.Nodes) == 0 {
+				continue
+			}
+			cond, ok := b.Nodes[len(b.Nodes)-1].(ast.Expr)
+			if !ok {
+				continue
+			}
+			if val, known := CondOracle(f, cond); known {
+				if val {
+					b.Succs = b.Succs[:1]
+				} else {
+					b.Succs = b.Succs[1:]
+				}
+			}
+		}
+	}
+	return &Flow{F: f, CFG: g}
 }
 
 // subnodes lists n and its descendants in source order, without entering
